@@ -122,8 +122,8 @@ static arr_real _highpass_fir(int n, real_t wn, const arr_real& win) {
     }
 
     auto h = _lowpass_fir(n, wn, win);
-    auto hh = arr_real(h.slice(t1, n, 2));
-    h.slice(t1, n, 2) = -hh;
+    auto hh = arr_real(h.slice(t1, n + 1, 2));
+    h.slice(t1, n + 1, 2) = -hh;
     return h;
 }
 
